@@ -1,6 +1,7 @@
 import Driver.Util
 import Stgutg.Model.AperDec
 import Stgutg.Gen.NgapSchema
+import Stgutg.Spec.X691
 namespace Driver
 open Stgutg Stgutg.Aper
 
@@ -99,16 +100,33 @@ def resVal : Res Val → String
   | .ok v => "ok " ++ valText v
   | .error e => e.tag
 
+/-- values inside the stated scope of C03: every length determinant below the fragmentation threshold -/
+partial def inScope : Val → Bool
+  | .bits _ n => n < 16384
+  | .octs b => b.length < 16384
+  | .str b => b.length < 16384
+  | .ptr v => inScope v
+  | .struct fs => fs.all inScope
+  | .slice l => l.length < 16384 && l.all inScope
+  | _ => true
+
+/-- spec column for an encode op: the X.691 encoding, `err` when the value is outside its constraints -/
+def specEnc (id : Nat) (p : Params) (v : Val) : String :=
+  if !inScope v then "undef" else
+  match Spec.X691.encodePdu schema fuel (.struct id) p v with
+  | some b => "ok " ++ toHex b
+  | none => "err"
+
 def aperEnc : Handler
   | ty :: ps :: toks =>
     match typeId ty, parseVal toks with
-    | some id, some (v, []) => (resHex (marshal schema fuel (.struct id) (parseParams ps) v), "n/a")
+    | some id, some (v, []) => (resHex (marshal schema fuel (.struct id) (parseParams ps) v), specEnc id (parseParams ps) v)
     | _, _ => badOp
   | _ => badOp
 
 def ngapEnc : Handler := fun toks =>
   match parseVal toks with
-  | some (v, []) => (resHex (marshal schema fuel (.struct Gen.Ngap.pduId) Gen.Ngap.encoderParams v), "n/a")
+  | some (v, []) => (resHex (marshal schema fuel (.struct Gen.Ngap.pduId) Gen.Ngap.encoderParams v), specEnc Gen.Ngap.pduId Gen.Ngap.encoderParams v)
   | _ => badOp
 
 def aperDec : Handler
